@@ -130,34 +130,39 @@ def uintLoop2 (data : Bytes) : Nat → Nat → UInt64 → Nat × Option UInt64
 
 def isDotOrExp (b : UInt8) : Bool := b == 46 || b == 101 || b == 69
 
+/-- both digit loops of `ReadUint64` from `startP`: `(end position, value or none on overflow)` -/
+def uintDigits (data : Bytes) (startP : Nat) : Nat × Option UInt64 :=
+  let r1 := uintLoop1 data startP (data.size - startP) startP 0
+  if r1.1 - startP == 18 then uintLoop2 data (data.size - r1.1) r1.1 r1.2 else (r1.1, some r1.2)
+
+/-- the checks after a single `0` (at `p - 1`) -/
+def uintZero (data : Bytes) (off p : Nat) : R UInt64 :=
+  if p == data.size then { val := 0, p := (p - off : Nat), err := none }
+  else if isDotOrExp data[p]! then { val := 0, p := (p - off : Nat), err := some .invalidUInt }
+  else { val := 0, p := (p - off : Nat), err := none }
+
+/-- the checks after the digit loops -/
+def uintFinish (data : Bytes) (off startP p : Nat) (val : UInt64) : R UInt64 :=
+  if p - startP == 0 then { val := 0, p := (p - off : Nat), err := some .invalidUInt }
+  else if p == data.size then { val := val, p := (p - off : Nat), err := none }
+  else if isDotOrExp data[p]! then { val := 0, p := (p - off : Nat), err := some .invalidUInt }
+  else { val := val, p := (p - off : Nat), err := none }
+
 /-- `ReadUint64(data[off:])`; positions relative to `off` -/
 def readUint64From (data : Bytes) (off : Nat) : R UInt64 :=
-  let len := data.size
   let p := countWsFrom data data.size off
-  if p == len then { val := 0, p := (p - off : Nat), err := some .invalidUInt }
-  else if data[p]! == 48 then
-    let p := p + 1
-    if p == len then { val := 0, p := (p - off : Nat), err := none }
-    else if isDotOrExp data[p]! then { val := 0, p := (p - off : Nat), err := some .invalidUInt }
-    else { val := 0, p := (p - off : Nat), err := none }
+  if p == data.size then { val := 0, p := (p - off : Nat), err := some .invalidUInt }
+  else if data[p]! == 48 then uintZero data off (p + 1)
   else
-    let startP := p
-    let (p, val) := uintLoop1 data startP (len - p) p 0
-    let (p, val?) := if p - startP == 18 then uintLoop2 data (len - p) p val else (p, some val)
-    match val? with
-    | none => { val := 0, p := (p - off : Nat), err := some .other }
-    | some val =>
-      if p - startP == 0 then { val := 0, p := (p - off : Nat), err := some .invalidUInt }
-      else if p == len then { val := val, p := (p - off : Nat), err := none }
-      else if isDotOrExp data[p]! then { val := 0, p := (p - off : Nat), err := some .invalidUInt }
-      else { val := val, p := (p - off : Nat), err := none }
+    match uintDigits data p with
+    | (pend, none) => { val := 0, p := (pend - off : Nat), err := some .other }
+    | (pend, some val) => uintFinish data off p pend val
 
 def readUint64 (data : Bytes) : R UInt64 := readUint64From data 0
 
-/-- `ReadInt64`; the value is returned as a mathematical integer -/
-def readInt64 (data : Bytes) : R Int :=
+/-- `ReadInt64` after the whitespace scan stopped at `p` -/
+def readInt64At (data : Bytes) (p : Nat) : R Int :=
   let len := data.size
-  let p := countWhitespace data
   if p == len then { val := 0, p := p, err := some .invalidInt }
   else
     let neg := data[p]! == 45
@@ -175,6 +180,9 @@ def readInt64 (data : Bytes) : R Int :=
           else { val := -(u : Int), p := p', err := none }
         else if u ≥ 9223372036854775808 then { val := 0, p := p', err := some .other }
         else { val := u, p := p', err := none }
+
+/-- `ReadInt64`; the value is returned as a mathematical integer -/
+def readInt64 (data : Bytes) : R Int := readInt64At data (countWhitespace data)
 
 def readInt32 (data : Bytes) : R Int :=
   let r := readInt64 data
